@@ -179,7 +179,7 @@ class ZbossNcpProtocol(asyncio.Protocol):
             except BufferTooShort:
                 # If the buffer is too short, there is nothing more we can do
                 break
-            except InvalidFrame:
+            except ValueError:
                 # If the buffer contains invalid data,
                 # drop it until we find the signature
                 signature_idx = self._buffer.find(
